@@ -28,7 +28,7 @@ pub fn exec(f: &mut Facade, op: &str) -> Result<String, String> {
             (Some("skt.cap"), Some(c)) => format!("cap {}", VerifSketch::sketch_capacity(c)),
             (Some("skt.inc"), Some(h)) => {
                 s.increment(h);
-                "ok".to_string()
+                format!("ok size={}", s.size())
             }
             (Some("skt.freq"), Some(h)) => format!("freq {}", s.frequency(h)),
             (Some("skt.dump"), None) => {
